@@ -1,18 +1,36 @@
 #!/bin/bash
-# usage: run_mutant.sh <patch.diff> <check id>...   -- applies the patch to /repo, runs the checks'
-# quick tier against it (scratch evidence/replay dir), and always reverts /repo afterwards.
+# usage: run_mutant.sh <patch.diff> <check id>...
+# Applies the patch to /repo, rebuilds the harness, runs the checks' quick tier against it with a
+# scratch evidence/replay dir, and always reverts /repo afterwards (git checkout -- .).
+# With MUT_SCRATCH=1 the same is done on a scratch copy (/tmp/mm-repo = clone of /repo HEAD,
+# /tmp/mm-harness = copy of the harness pointing at it) so that /repo and /verif/harness stay
+# usable meanwhile; the scratch copies are removed by `run_mutant.sh --clean`.
 set -u
+if [ "${1:-}" = "--clean" ]; then rm -rf /tmp/mm-repo /tmp/mm-harness /tmp/mvh-mut; exit 0; fi
 PATCH="$1"; shift
 SCR=/tmp/mvh-mut
 rm -rf "$SCR"; mkdir -p "$SCR"
 cp /verif/known_findings.json "$SCR/"
-cd /repo || exit 2
+if [ "${MUT_SCRATCH:-0}" = 1 ]; then
+  REPO=/tmp/mm-repo; H=/tmp/mm-harness
+  if [ ! -d $REPO/.git ]; then git clone -q /repo $REPO || exit 2; fi
+  git -C $REPO checkout -q -- . ; git -C $REPO fetch -q origin; git -C $REPO reset -q --hard "$(git -C /repo rev-parse HEAD)"
+  mkdir -p $H; rsync -a --delete --exclude target --exclude 'target-*' /verif/harness/ $H/
+  sed -i 's#path = "/repo"#path = "/tmp/mm-repo"#' $H/Cargo.toml
+else
+  REPO=/repo; H=/verif/harness
+fi
+cd $REPO || exit 2
 if ! git diff --quiet; then echo "repo dirty"; exit 2; fi
 if ! git apply "$PATCH"; then echo "patch does not apply"; exit 2; fi
-trap 'cd /repo && git checkout -- . && cd /verif/harness && cargo build --release --offline --bin check 2>/dev/null >/dev/null' EXIT
-cd /verif/harness
+if [ "${MUT_SCRATCH:-0}" = 1 ]; then
+  trap 'cd $REPO && git checkout -- .' EXIT
+else
+  trap 'cd /repo && git checkout -- . && cd /verif/harness && cargo build --release --offline --bin check 2>/dev/null >/dev/null' EXIT
+fi
+cd $H
 cargo build --release --offline --bin check 2>&1 | grep -E "^error" -A 8 | head -20
 for c in "$@"; do
-  out=$(MVH_VERIF_DIR=$SCR MVH_SCALE=${SCALE:-1} timeout 1800 ./target/release/check $c --tier quick ${SEED:+--seed $SEED} 2>&1 | grep -v "^KNOWN" | tail -4 | cut -c1-700)
-  if echo "$out" | grep -q "VIOLATION"; then echo "[$c] DETECTED: $(echo "$out" | grep '^FAIL' | cut -c1-400)"; else echo "[$c] missed: $(echo "$out" | tail -1 | cut -c1-200)"; fi
+  out=$(MVH_VERIF_DIR=$SCR MVH_SCALE=${SCALE:-1} timeout 3600 ./target/release/check $c --tier ${TIER:-quick} ${SEED:+--seed $SEED} 2>&1 | grep -v "^KNOWN" | tail -4 | cut -c1-700)
+  if echo "$out" | grep -q "VIOLATION"; then echo "[$c] DETECTED: $(echo "$out" | grep -E '^FAIL|^VIOLATION' | head -1 | cut -c1-400)"; else echo "[$c] missed: $(echo "$out" | tail -1 | cut -c1-200)"; fi
 done
